@@ -55,7 +55,8 @@ def run(ctx):
     for name, cf in g.gen_statements(ctx, "selectq")[:1] + [("names", g.gen_names(ctx))]:
         parts.append(("grammar_" + name, cf))
     # (d) growth
-    sizes = "{64, 128, 256, 512}" if q else "{64, 128, 256, 512, 1024, 2048, 4096, 8192, 50000}"
+    # small sizes too (1..8: the 3-slot rings, the 3 segments of a name), then doubling
+    sizes = "{1, 2, 3, 4, 5, 6, 7, 8, 64, 128, 256, 512}" if q else "{1, 2, 3, 4, 5, 6, 7, 8, 31, 32, 33, 64, 128, 256, 512, 1024, 2048, 4096, 8192, 50000}"
     cf, r = gen(ctx, "Gen_c04w", "grow", {"N": 1, "Part": '"grow"', "Sizes": sizes})
     parts.append(("grow", cf))
     for name, cf in parts:
